@@ -135,9 +135,10 @@ def key(p):
 
 
 class St:
-    def __init__(self, Ci=None, Cb=None, T=None, NZ=None, n=0, D=None):
+    def __init__(self, Ci=None, Cb=None, T=None, NZ=None, n=0, D=None, bot=False):
         self.Ci = dict(Ci or {}); self.Cb = dict(Cb or {}); self.T = dict(T or {})
         self.NZ = set(NZ or ()); self.n = n; self.D = set(D or ())
+        self.bot = bot      # unreachable (the checker marks it by the fact "0 is non-zero")
 
     def cell(self, k, side):
         m = self.Ci if side == "i" else self.Cb
@@ -154,7 +155,7 @@ class St:
         return set(self.Ci) | set(self.Cb) | self.D
 
     def copy(self):
-        return St(self.Ci, self.Cb, self.T, self.NZ, self.n, self.D)
+        return St(self.Ci, self.Cb, self.T, self.NZ, self.n, self.D, self.bot)
 
 
 def single_atom(p):
@@ -203,6 +204,8 @@ def subst_state(q, st, M):
 def entails_all(st, new, M):
     """failing facts of `new` (a state at a fresh anchor placed at the current point) in `st`"""
     bad = []
+    if st.bot:
+        return bad
     for k in st.cells() | set(new.Cb):
         if k in new.D:
             continue
@@ -414,7 +417,7 @@ class TV:
             pc += 1
         if ev_i != ev_b:
             raise Reject("events differ before pc %d: %s vs %s" % (pc, ev_i, ev_b))
-        return insts[k:], pc, St(Ci, Cb, T, st.NZ, n, st.D)
+        return insts[k:], pc, St(Ci, Cb, T, st.NZ, n, st.D, st.bot)
 
     def candidate(self, st, wc, wt, allc, extra_nz=(), optimistic=False):
         """heuristic: facts at a new anchor that are likely to hold in st and survive writes wc/wt"""
@@ -583,7 +586,12 @@ class TV:
                         continue
                     break
                 self.cert[ncert] = ("loop", head_pc, back_pc, inv.copy())
-                st = stb if once else inv
+                if once:
+                    st = stb
+                    if nonzero(stb, stb.cell(cond, "i")):
+                        st = stb.copy(); st.bot = True      # the loop is never left
+                else:
+                    st = inv
                 pc = exit_pc
             else:
                 self.stats["if"] += 1
@@ -597,7 +605,7 @@ class TV:
                     stb = self.moved(stb, shift)
                 if pc2 != exit_pc:
                     raise Reject("if body does not end at the join (%d vs %d)" % (pc2, exit_pc))
-                join = self.candidate(st, wc, wt, allc)
+                join = self.candidate(st, wc, wt, allc, optimistic=True)
                 join.D |= set(k for k in stb.cells() if not stb.agree(k))
                 for k in join.D:
                     join.Ci.pop(k, None); join.Cb.pop(k, None)
@@ -620,9 +628,22 @@ class TV:
             return pc + 1
         raise Reject("missing move %d at %d" % (shift, pc))
 
+    def zero_cells(self, cap=96):
+        """cells named by the bytecode (the tape starts all-zero; any choice is sound)"""
+        zs = []
+        for i in self.code:
+            for x in i[1:]:
+                k = x[1] if isinstance(x, tuple) and x[0] in ("m", "mz") else (x if i[0] in ("i", "o") else None)
+                if k is not None and k not in zs:
+                    zs.append(k)
+            if i[0] in ("s", "z", "nz") and i[1] not in zs:
+                zs.append(i[1])
+        return zs[:cap]
+
     def run(self):
         shift, insts = self.ir
-        pc, st = self.block(insts, 0, len(self.code), St())
+        self.zeros = self.zero_cells()
+        pc, st = self.block(insts, 0, len(self.code), St(Ci={k: {} for k in self.zeros}, Cb={k: {} for k in self.zeros}))
         if pc < len(self.code) and self.code[pc][0] == "m":
             pc += 1
         if pc != len(self.code):
@@ -665,6 +686,7 @@ def validate(w, ir_text, bc_text, fuse):
         tv = TV(w, parse_ir(ir_text.split()), parse_bc(bc_text.split()), stats, fuse)
         tv.run()
         stats["cert"] = cert_text(tv.cert)
+        stats["zeros"] = " ".join(str(k) for k in tv.zeros)
         return "ok", stats
     except Reject as e:
         return "reject: %s" % e, stats
